@@ -80,6 +80,16 @@ static int alloc_extent(void *inside, unsigned char **begin, size_t *size)
 	return 0;
 }
 
+/* bytes from p to the end of the heap allocation p points into (0 if unknown) */
+static size_t extent_from(void *p)
+{
+	unsigned char *begin;
+	size_t size;
+	if (p == NULL || alloc_extent(p, &begin, &size) < 0)
+		return 0;
+	return (size_t)(begin + size - (unsigned char *)p);
+}
+
 static void *dup_mem(const void *p, size_t n)
 {
 	void *q = malloc(n ? n : 1);
@@ -103,18 +113,16 @@ static void take_snapshot(struct context_data *ctx, struct snapshot *s)
 	for (i = 0; i < mod->pat; i++) {
 		if (mod->xxp[i] == NULL)
 			continue;
-		s->xxp_size[i] = sizeof(struct xmp_pattern) + sizeof(int) * (mod->chn > 0 ? mod->chn - 1 : 0);
+		s->xxp_size[i] = extent_from(mod->xxp[i]);	/* whatever libxmp_alloc_pattern allocated */
 		s->xxp[i] = (unsigned char *)dup_mem(mod->xxp[i], s->xxp_size[i]);
 	}
 	s->xxt_ptr = (struct xmp_track **)dup_mem(mod->xxt, sizeof(void *) * (mod->trk > 0 ? mod->trk : 0));
 	s->xxt = (unsigned char **)calloc(mod->trk + 1, sizeof(void *));
 	s->xxt_size = (size_t *)calloc(mod->trk + 1, sizeof(size_t));
 	for (i = 0; i < mod->trk; i++) {
-		int rows;
 		if (mod->xxt[i] == NULL)
 			continue;
-		rows = mod->xxt[i]->rows;
-		s->xxt_size[i] = sizeof(struct xmp_track) + sizeof(struct xmp_event) * (rows > 0 ? rows - 1 : 0);
+		s->xxt_size[i] = extent_from(mod->xxt[i]);	/* header + all events of the track */
 		s->xxt[i] = (unsigned char *)dup_mem(mod->xxt[i], s->xxt_size[i]);
 	}
 	s->xxi = (struct xmp_instrument *)dup_mem(mod->xxi, sizeof(struct xmp_instrument) * (mod->ins > 0 ? mod->ins : 0));
